@@ -91,6 +91,15 @@ def markup_inventory(ctx: Ctx, rid: str) -> None:
             tr = Trust(fn, trusted_params=tparams, trusted_calls=tcalls, summaries=summaries)
             scope = tr.scope_of(c)
             ok = all(tr.trust(a, scope) for a in c.args)
+            if not ok and cls == "rendered-output":
+                # normal form: a local naming the trusted producer (`join = env.concat`) is
+                # inlined, so the call is recognised by its real callee
+                from .normalize import norm as _norm_ro
+
+                nf = _norm_ro(fn)
+                tr2 = Trust(nf, trusted_params=tparams, trusted_calls=tcalls, summaries=summaries)
+                mk2 = [c2 for c2 in astq.calls(nf) if astq.callee(c2) in ("Markup", "markupsafe.Markup")]
+                ok = bool(mk2) and all(tr2.trust(a, tr2.scope_of(c2)) for c2 in mk2 for a in c2.args)
             ctx.check(ok, f"{mod}:{q}:{ast.unparse(c)[:30]}", f"{mod}:{q}", f"{ast.unparse(c)[:40]} wraps unescaped data",
                       f"{mod}.{q}: `{ast.unparse(c)[:60]}` ({cls}: {reason}) - the argument is not proven escaped: {tr.why(c.args[0], scope) if c.args else ''} flows into it, so a plain string argument is emitted as markup",
                       f"{m.rel}:{c.lineno}", detail={"site": f"{mod}:{q}", "class": cls, "reason": reason})
